@@ -71,19 +71,49 @@ theorem countFree_eq_filter (f : Nat → Nat) (g : Nat → Bool) :
     · have hf : f t ≠ 0 := fun hf => hg (this.1 hf)
       simp [hg, hf]
 
-/-! ### `fire` -/
+/-! ### `fireL` / `fire` -/
 
-theorem fire_ok {P : Params} {tl : List Ev} {cn : Option Cancel} {t0 d : Nat} {r : Result}
+theorem fireL_ok {P : Params} {g : Nat} {tl : List Ev} {cn : Option Cancel} {t0 d dlLate : Nat} {dlPre : Bool}
+    {dv : List Delivery} {r : Result}
     (hs : Sorted tl) (hb : Balanced tl) (hcn : ∀ c, cn = some c → t0 ≤ c.t)
-    (h : fire P tl cn t0 d = some r) :
-    LoopOk P tl cn t0 (unsuspTo tl t0 + d) (t0 + d + P.maxSusp) t0 r := by
-  unfold fire at h
+    (h : fireL P g tl cn t0 d dlLate dlPre dv = .done r) :
+    LoopOk P g tl cn t0 (unsuspTo tl t0 + d) (t0 + d + P.maxSusp + dlLate) t0 r := by
+  unfold fireL at h
   simp only [clockAt_total hs hb] at h
-  exact loop_spec P tl cn t0 _ _ hs hb hcn _ t0 d r (Nat.le_refl _) (by omega) rfl h
+  exact loop_spec P g tl cn t0 _ _ dlPre hs hb hcn _ t0 d t0 dv r (Nat.le_refl _) (by omega) (Nat.le_refl _)
+    (by omega) (Nat.le_refl _) (by omega) h
 
 theorem unsuspended_eq (tl : List Ev) {a b : Nat} (h : a ≤ b) :
     unsuspended tl a b = unsuspTo tl b - unsuspTo tl a := by
   have := unsuspTo_eq_add tl h
   omega
+
+theorem unsuspended_self (tl : List Ev) (a : Nat) : unsuspended tl a a = 0 := by
+  simp [unsuspended, countFree]
+
+/-- A prompt run (`fire`) always completes. -/
+theorem fire_done (P : Params) (tl : List Ev) (cn : Option Cancel) (t0 d : Nat) (hthr : 1 ≤ P.thr) :
+    ∃ r, fire P tl cn t0 d = .done r := by
+  have h1 : fire P tl cn t0 d ≠ .outOfFuel := by
+    unfold fire fireL fuelFor
+    exact loop_total P 0 tl cn _ _ _ _ hthr _ _ _ _ _ (by omega) (by omega)
+  have h2 : fire P tl cn t0 d ≠ .badOracle := by
+    unfold fire fireL
+    exact loop_nil_ok P 0 tl cn _ _ _ _ _ _ _ _
+  cases h : fire P tl cn t0 d with
+  | done r => exact ⟨r, rfl⟩
+  | badOracle => exact absurd h h2
+  | outOfFuel => exact absurd h h1
+
+/-- In a prompt run nothing is handled late: the stamp is the instant and the previous gap is empty. -/
+theorem fire_prompt {P : Params} {tl : List Ev} {cn : Option Cancel} {t0 d : Nat} {r : Result}
+    (hs : Sorted tl) (hb : Balanced tl) (hcn : ∀ c, cn = some c → t0 ≤ c.t)
+    (h : fire P tl cn t0 d = .done r) :
+    LoopOk P 0 tl cn t0 (unsuspTo tl t0 + d) (t0 + d + P.maxSusp) t0 r ∧ r.stamp = r.instant ∧
+      unsuspended tl r.pStamp r.pAt = 0 := by
+  have ok := fireL_ok hs hb hcn h
+  have h1 : r.stamp = r.instant := by have := ok.late; have := ok.stampLe; omega
+  have h2 : r.pAt = r.pStamp := by have := ok.prevLate; have := ok.prevLe; omega
+  exact ⟨by simpa using ok, h1, by rw [h2]; exact unsuspended_self tl _⟩
 
 end BbRe.Lemmas.SusClock
